@@ -709,33 +709,33 @@ theorem ffAddition_general (inv : Policy) (fields : List (Field κ α)) (a : Add
   | cons kv rest ih =>
     obtain ⟨k, v⟩ := kv
     by_cases hk : k ∈ fields.map (·.name)
-    · cases hq : dataKept inv fields a (k, v) <;> simp [List.filter_cons, hq, ffAddition, hk, ih]
+    · cases hq : dataKept inv fields a (k, v) <;> simp [hq, ffAddition, hk, ih]
     · have hff : findField k fields = none := (findField_none_iff k fields).mpr hk
       cases a with
       | ignore =>
-        simp [List.filter_cons, dataKept, fieldExcluded, additionExcluded, hff, ffAddition, hk, parseAddition,
+        simp [dataKept, fieldExcluded, additionExcluded, hff, ffAddition, hk, parseAddition,
           Addition.strictified, ih]
       | forbid =>
-        simp [List.filter_cons, dataKept, fieldExcluded, additionExcluded, hff, ffAddition, hk, parseAddition,
+        simp [dataKept, fieldExcluded, additionExcluded, hff, ffAddition, hk, parseAddition,
           Addition.strictified]
       | keep =>
-        simp [List.filter_cons, dataKept, fieldExcluded, additionExcluded, hff, ffAddition, hk, parseAddition,
+        simp [dataKept, fieldExcluded, additionExcluded, hff, ffAddition, hk, parseAddition,
           Addition.strictified, ih]
       | typed p =>
         cases hp : p v with
         | some y =>
-          simp [List.filter_cons, dataKept, fieldExcluded, additionExcluded, hff, Offending, hp, ffAddition, hk,
+          simp [dataKept, fieldExcluded, additionExcluded, hff, Offending, hp, ffAddition, hk,
             parseAddition, Addition.strictified, strictifyParser_ok inv p v y hp, ih]
         | none =>
           cases inv with
           | exclude =>
-            simp [List.filter_cons, dataKept, fieldExcluded, additionExcluded, hff, Offending, hp, ffAddition, hk,
+            simp [dataKept, fieldExcluded, additionExcluded, hff, Offending, hp, ffAddition, hk,
               parseAddition, ih]
           | preserve =>
-            simp [List.filter_cons, dataKept, fieldExcluded, additionExcluded, hff, Offending, hp, ffAddition, hk,
+            simp [dataKept, fieldExcluded, additionExcluded, hff, Offending, hp, ffAddition, hk,
               parseAddition, Addition.strictified, strictifyParser, orSelf, ih]
           | throw =>
-            simp [List.filter_cons, dataKept, fieldExcluded, additionExcluded, hff, Offending, hp, ffAddition, hk,
+            simp [dataKept, fieldExcluded, additionExcluded, hff, Offending, hp, ffAddition, hk,
               parseAddition, Addition.strictified, strictifyParser]
 
 theorem findField_self_of_nodup (fields : List (Field κ α)) (hnd : (fields.map (·.name)).Nodup) :
@@ -767,5 +767,145 @@ theorem C11_fields_ff_general (inv : Policy) (fields : List (Field κ α)) (a : 
   have h2 := ffAddition_general inv fields a data
   have h3 : (a.strictified inv).isIgnore = a.isIgnore := by cases a <;> rfl
   simp only [parseDataFF, h1, h2, h3]
+
+/-! ### "a required field is never silently excluded", at the level of the whole data class -/
+
+theorem map_ne_ok {ε β : Type} (g : β → β) (t : Except ε β) (h : ∀ r, t ≠ .ok r) : ∀ r, t.map g ≠ .ok r := by
+  intro r
+  cases t with
+  | error e => simp [map_error]
+  | ok v => exact absurd rfl (h v)
+
+theorem ffFields_required_offending (inv : Policy) (fs : List (Field κ α)) (data : List (κ × α))
+    (f : Field κ α) (x : α) (hf : f ∈ fs) (hl : lookup f.name data = some x)
+    (hreq : f.required = true) (hbad : Offending f.parse x = true) (hpol : f.policy inv = .exclude) :
+    ∀ r, ffFields inv fs data ≠ .ok r := by
+  induction fs with
+  | nil => simp at hf
+  | cons g gs ih =>
+    intro r
+    rcases List.mem_cons.mp hf with h | h
+    · subst h
+      simp [ffFields, hl, C11_required_never_excluded_value inv f x hreq hbad hpol]
+    · have ih' := ih h
+      simp only [ffFields]
+      repeat' split
+      all_goals first | exact ih' r | exact map_ne_ok _ _ ih' r | simp
+
+/-- **a required field is never silently excluded** (field-first): if the data carries an offending
+value for a required field whose effective policy is `exclude`, the parse fails — it never returns a
+result without (or with) that field. -/
+theorem C11_required_never_excluded_ff (inv : Policy) (fields : List (Field κ α)) (a : Addition α)
+    (data : List (κ × α)) (f : Field κ α) (x : α) (hf : f ∈ fields) (hl : lookup f.name data = some x)
+    (hreq : f.required = true) (hbad : Offending f.parse x = true) (hpol : f.policy inv = .exclude) :
+    ∀ r, parseDataFF inv fields a data ≠ .ok r := by
+  intro r
+  unfold parseDataFF
+  cases h : ffFields inv fields data with
+  | error e => simp
+  | ok r' => exact absurd h (ffFields_required_offending inv fields data f x hf hl hreq hbad hpol r')
+
+theorem dfLoop_required_offending (inv : Policy) (fields : List (Field κ α)) (a : Addition α)
+    (data : List (κ × α)) (f : Field κ α) (k : κ) (x : α) (hmem : (k, x) ∈ data)
+    (hf : findField k fields = some f)
+    (hreq : f.required = true) (hbad : Offending f.parse x = true) (hpol : f.policy inv = .exclude) :
+    ∀ r, dfLoop inv fields a data ≠ .ok r := by
+  induction data with
+  | nil => simp at hmem
+  | cons kv rest ih =>
+    intro r
+    obtain ⟨k', v⟩ := kv
+    rcases List.mem_cons.mp hmem with h | h
+    · cases h
+      simp [dfLoop, hf, C11_required_never_excluded_value inv f x hreq hbad hpol]
+    · have ih' := ih h
+      simp only [dfLoop]
+      repeat' split
+      all_goals first | exact ih' r | exact map_ne_ok _ _ ih' r | simp
+
+/-- the same for the data-first strategy. -/
+theorem C11_required_never_excluded_df (inv : Policy) (fields : List (Field κ α)) (a : Addition α)
+    (data : List (κ × α)) (f : Field κ α) (k : κ) (x : α) (hmem : (k, x) ∈ data)
+    (hf : findField k fields = some f)
+    (hreq : f.required = true) (hbad : Offending f.parse x = true) (hpol : f.policy inv = .exclude) :
+    ∀ r, parseDataDF inv fields a data ≠ .ok r := by
+  intro r
+  unfold parseDataDF
+  cases h : dfLoop inv fields a data with
+  | error e => simp
+  | ok r' => exact absurd h (dfLoop_required_offending inv fields a data f k x hmem hf hreq hbad hpol r')
+
+/-! ### `@property` outputs -/
+
+omit [DecidableEq κ] in
+/-- the output path decides exactly like the `*args` path, with the effective policy
+`on_error or invalid_values`. -/
+theorem C11_output_eq_pos (inv : Policy) (oe : Option Policy) (pt : Option (Parser α)) (x : α) :
+    parseOutputValue inv oe pt x = parsePosType (oe.getD inv) pt x := by
+  cases pt with
+  | none => rfl
+  | some p => cases h : p x <;> cases h2 : oe.getD inv <;> simp [parseOutputValue, parsePosType, h, h2]
+
+omit [DecidableEq κ] in
+/-- **property outputs, all policies**: the computed part of an instance equals the all-`throw`
+computation over the declaration without the excluded properties (`preserve` read as "offenders convert
+to themselves"). -/
+theorem C11_props_general (inv : Policy) (props : List (OutProp κ α)) :
+    parseProps inv props =
+      parseProps .throw ((props.filter fun q => !propExcluded inv q).map (OutProp.strictified inv)) := by
+  induction props with
+  | nil => rfl
+  | cons q qs ih =>
+    rw [List.filter_cons]
+    cases hq : q.parse with
+    | none =>
+      have hex : propExcluded inv q = false := by simp [propExcluded, hq]
+      simp [hex, parseProps, parseOutputValue, OutProp.strictified, hq, ih]
+    | some p =>
+      cases hp : p q.raw with
+      | some y =>
+        have hex : propExcluded inv q = false := by simp [propExcluded, hq, Offending, hp]
+        have := strictifyParser_ok (q.onError.getD inv) p q.raw y hp
+        simp [hex, parseProps, parseOutputValue, OutProp.strictified, hq, hp, this, ih]
+      | none =>
+        cases hpol : q.onError.getD inv with
+        | exclude =>
+          have hex : propExcluded inv q = true := by simp [propExcluded, hq, Offending, hp, hpol]
+          simp [hex, parseProps, parseOutputValue, hq, hp, hpol, ih]
+        | preserve =>
+          have hex : propExcluded inv q = false := by simp [propExcluded, hq, Offending, hp, hpol]
+          have := strictifyParser_preserve_bad p q.raw hp
+          simp [hex, parseProps, parseOutputValue, OutProp.strictified, hq, hp, hpol, this, ih]
+        | throw =>
+          have hex : propExcluded inv q = false := by simp [propExcluded, hq, Offending, hp, hpol]
+          have := strictifyParser_throw_bad p q.raw hp
+          simp [hex, parseProps, parseOutputValue, OutProp.strictified, hq, hp, hpol, this]
+
+/-- before `fixes/C11-output-error-isolation.patch` a preserved (or excluded) offending `@property`
+result of a constrained type still made the whole initialisation raise: negation witness, replayed on
+the real code by the corpus. -/
+theorem C11_output_legacy_leak_witness :
+    ∃ (props : List (OutProp Nat Nat)),
+      parsePropsLegacy .throw (fun _ => true) props = .error .collected ∧
+      parseProps .throw props = .ok [(0, 5)] :=
+  ⟨[{ name := 0, onError := some .preserve, parse := some (fun n => if n < 4 then some n else none), raw := 5 }],
+   rfl, rfl⟩
+
+omit [DecidableEq κ] in
+/-- where the converter raises directly (nothing is recorded) the old code already agreed. -/
+theorem C11_output_legacy_clean (inv : Policy) (props : List (OutProp κ α)) :
+    parsePropsLegacy inv (fun _ => false) props = parseProps inv props := by
+  have h : ∀ props : List (OutProp κ α),
+      parsePropsLegacyAux inv (fun _ => false) props = (parseProps inv props).map (fun l => (l, false)) := by
+    intro props
+    induction props with
+    | nil => rfl
+    | cons q qs ih =>
+      cases hv : parseOutputValue inv q.onError q.parse q.raw <;>
+        simp only [parsePropsLegacyAux, parseProps, hv, ih, Bool.false_and, Bool.or_false] <;>
+        cases parseProps inv qs <;> rfl
+  unfold parsePropsLegacy
+  rw [h]
+  cases parseProps inv props <;> rfl
 
 end Utv.C11
